@@ -199,7 +199,7 @@ const fn mul_add(mut ui_a: u32, mut ui_b: u32, mut ui_c: u32, op: MulAddType) ->
         } else {
             if reg_z == 30 {
                 bit_n_plus_one = (exp_z & 0x2) != 0;
-                bits_more = (exp_z & 0x1) != 0;
+                bits_more = bits_more || (exp_z & 0x1) != 0;
                 exp_z = 0;
             } else if reg_z == 29 {
                 bit_n_plus_one = (exp_z & 0x1) != 0;
@@ -210,7 +210,10 @@ const fn mul_add(mut ui_a: u32, mut ui_b: u32, mut ui_c: u32, op: MulAddType) ->
         let mut u_z = P32E2::pack_to_ui(regime, exp_z as u32, frac_z);
 
         if bit_n_plus_one {
-            if (frac64_z << (32 - reg_z)) != 0 {
+            // every bit below the (n+1)-th one is sticky; for reg_z > 28
+            // that is the whole fraction (hidden bits are still in place)
+            let shift = if reg_z <= 28 { 31 - reg_z } else { 2 };
+            if (frac64_z << shift) != 0 {
                 bits_more = true;
             }
             u_z += (u_z & 1) | (bits_more as u32);
